@@ -272,7 +272,7 @@ func c17HistWriters(ctx *core.Ctx) {
 	var all []c17HistPending
 	var wg sync.WaitGroup
 	sem := make(chan struct{}, 16)
-	for _, e := range gen.Catalog {
+	for _, e := range gen.WithGeo() {
 		nullable := false
 		for _, p := range e.Schema.Columns() {
 			if leaf, ok := e.Schema.Lookup(p...); ok && (leaf.MaxDefinitionLevel > 0 || leaf.MaxRepetitionLevel > 0) {
